@@ -251,7 +251,7 @@ func runC03(w *World) {
 	}
 	rc := &restartCtx{w: w, n: n, class: "C03", acked: map[string]bool{}}
 	rc.hc = newHistChecker(w, inst, newModel(), "C03")
-	w.stepHooks = append(w.stepHooks, func() { rc.hc.stepHook() })
+	w.stepHooks = append(w.stepHooks, func() { rc.hc.stepHook() }, auditHook(w, func() *Inst { return n.inst }, "C03"))
 
 	nc := 1 + w.knob("clients", 3)
 	size := []int{6, 12, 25, 50}[w.knob("size", 4)]
